@@ -223,3 +223,45 @@ def unit_arc(kind, file, publish_rule):
 
 UNITS += [unit_arc("atomic", "src/multi/channels/arc/atomic.rs", Rule("R6-publish", r"\bchannel\.publish_movable\(arc_item\.clone\(\)\)", "self.publish_to(*stream_id, arc_item.clone())", count=1)),
           unit_arc("full_sync", "src/multi/channels/arc/full_sync.rs", Rule("R6-publish", r"\bchannel\.publish_movable\(arc_item\.clone\(\)\)", "self.publish_to(*stream_id, arc_item.clone())", count=1))]
+
+# fanout_arc_crossbeam: the crossbeam-backed Arc Multi channel (its per-listener queues are crossbeam_channel::bounded -- an ASSUMED bounded FIFO;
+# Kani cannot compile crossbeam: internal compiler error). Same obligations as the other Arc channels.
+SPEC_XB = SPEC_ARC.replace("pub struct Channel<const BUFFER_SIZE: usize, const MAX_STREAMS: usize> { pub streams_manager: StreamsManagerBase<MAX_STREAMS>, pub channels: [Queue; MAX_STREAMS] }",
+                           "pub struct Channel<const BUFFER_SIZE: usize, const MAX_STREAMS: usize> { pub streams_manager: StreamsManagerBase<MAX_STREAMS>, pub channels: [Queue; MAX_STREAMS] }\n"
+                           "pub struct SendError { pub v: u8 }") + r"""
+impl<const BUFFER_SIZE: usize, const MAX_STREAMS: usize> Channel<BUFFER_SIZE, MAX_STREAMS> {
+    /// `self.senders.get_unchecked(id).len()`: ASSUMED crossbeam contract
+    #[verifier::external_body]
+    pub fn sender_len(&self, stream_id: u32) -> (r: usize)
+        requires (stream_id as int) < MAX_STREAMS,
+        ensures r == self.channels[stream_id as int].seq@.len(),
+    { unimplemented!() }
+    /// `self.senders.get_unchecked(id).try_send(handle)`: ASSUMED crossbeam contract (bounded FIFO: accepted iff not full)
+    #[verifier::external_body]
+    pub fn try_send_to(&mut self, stream_id: u32, handle: ArcItem) -> (r: Result<(), SendError>)
+        requires (stream_id as int) < MAX_STREAMS,
+        ensures final(self).streams_manager == old(self).streams_manager,
+                old(self).channels[stream_id as int].seq@.len() < BUFFER_SIZE ==> r is Ok && final(self).channels[stream_id as int].seq@ == old(self).channels[stream_id as int].seq@.push(handle.alloc@),
+                old(self).channels[stream_id as int].seq@.len() >= BUFFER_SIZE ==> r is Err && final(self).channels[stream_id as int] == old(self).channels[stream_id as int],
+                forall|j: int| 0 <= j < MAX_STREAMS && j != stream_id ==> final(self).channels[j] == old(self).channels[j],
+    { unimplemented!() }
+}
+"""
+
+
+def unit_xb():
+    u = unit_arc("crossbeam", "src/multi/channels/arc/crossbeam.rs", Rule("R6-try-send", r"\bsender\.try_send\(arc_item\.clone\(\)\)", "self.try_send_to(*stream_id, arc_item.clone())", count=2))
+    f = u.fns[0]
+    f.rules = [r for r in f.rules if r.rid != "R6-queue"] + [
+        Rule("R6-sender", r"let sender = unsafe \{ self\.senders\.get_unchecked\(\*stream_id as usize\) \};", "", count=1, note="unchecked sender lookup folded into the shims (index bound obligation)"),
+        Rule("R6-sender-len", r"\bsender\.len\(\)", "self.sender_len(*stream_id)", count=1)]
+    # loop 1 of the other Arc channels (the retry `loop`) is the `while .. .is_err()` of the waiting arm here
+    inv1 = f.loops[1]
+    f.loops = {0: f.loops[0],
+               1: inv1.replace("invariant_except_break", "invariant").split("\nensures")[0]}
+    u.spec = SPEC_XB
+    u.trusted = ["sender_len / try_send_to: crossbeam_channel::bounded as a bounded FIFO (ASSUMED contract), wake_stream, Arc::clone: shims"]
+    return u
+
+
+UNITS += [unit_xb()]
